@@ -3,6 +3,7 @@
 (* Case generator for C06.  One case = one route SET with the registration *)
 (* orders to try and the lookups to perform after each registration order: *)
 (*   [id, fam, raw, routes: <<[m, pat, names]>>, orders: <<perm>>,         *)
+(*    modes: <<"plain"|"use3"|"group">> (engine set-up per order),         *)
 (*    lookups: <<[m, path]>>]                                              *)
 (* The driver builds one real engine per order.  Nothing in a case says    *)
 (* what the outcome should be.                                             *)
@@ -95,8 +96,15 @@ SomeOrders(k, x) == <<Ident(k), [i \in 1 .. k |-> k + 1 - i]>> \o [j \in 1 .. 4 
 (* cases *)
 RouteRec(m, p) == [m |-> m, pat |-> p, names |-> IF Valid(p) THEN Parse(p).names ELSE << >>]
 
+\* how the engine of each order is set up before the routes are registered (the obligation is the same in every mode:
+\* the handler that runs is the one registered for the matched route):
+\*   "plain"  no middleware
+\*   "use3"   three separate engine.Use(noop) calls (the engine's chain grows 1 -> 2 -> 4: spare capacity)
+\*   "group"  two engine.Use(noop), routes registered on engine.Group("", noop)
+ModeSeq == <<"plain", "use3", "group">>
 MkCase(fam, raw, routes, orders, lookups) ==
-  [fam |-> fam, raw |-> raw, esc |-> FALSE, routes |-> routes, orders |-> orders, lookups |-> lookups]
+  [fam |-> fam, raw |-> raw, esc |-> FALSE, routes |-> routes, orders |-> orders,
+   modes |-> [o \in 1 .. Len(orders) |-> ModeSeq[((o + Len(lookups)) % 3) + 1]], lookups |-> lookups]
 
 \* the pattern with every parameter name suffixed
 RECURSIVE Unparse(_, _, _, _, _)
